@@ -4,8 +4,8 @@ import Model.Files
 /-!
 Driver for C15.
 
-* `{"op":"replay","cfg":[uniqueBackup,atomicRewrite,atomicCreate,keepForeign],"runs":[{"stamp":s,"cut":n,
-  "acts":[{"a":"create","stamp":s}|{"a":"resume"}|{"a":"finish","j":[sid,id]}|
+* `{"op":"replay","cfg":[uniqueBackup,atomicRewrite,atomicCreate,keepForeign,resetAlways],"runs":[{"stamp":s,"cut":n,
+  "acts":[{"a":"create","stamp":s}|{"a":"recreate","stamp":s}|{"a":"resume"}|{"a":"finish","j":[sid,id]}|
   {"a":"dump","js":[[sid,id]…],"sizes":[…],"stamp":s}|{"a":"end","multi":b,"sizes":[…]}]}…]}`
   → the system calls of `searchFiles` (file names rendered the way the code builds them), whether
   each call succeeds in the model, the final directory, and the visible property at every prefix.
@@ -47,6 +47,7 @@ def jAct (j : Json) : Except String Act := do
   match a with
   | "create" => return .create (← (← field j "stamp").getStr?)
   | "finish" => return .finish (← jJob (← field j "j"))
+  | "recreate" => return .recreate (← (← field j "stamp").getStr?)
   | "resume" => return .resume
   | "dump" =>
     let stamp ← (fieldD j "stamp" (Json.str "")).getStr?
@@ -131,9 +132,9 @@ def handle (j : Json) : Except String Json := do
   let op ← (← field j "op").getStr?
   match op with
   | "replay" =>
-    let cfg ← match ← jList jBool (fieldD j "cfg" (Json.arr #[true, true, true, true])) with
-      | [a, b, c, d] => pure (Cfg.mk a b c d)
-      | _ => throw "cfg = [uniqueBackup, atomicRewrite, atomicCreate, keepForeign]"
+    let cfg ← match ← jList jBool (fieldD j "cfg" (Json.arr #[true, true, true, true, true])) with
+      | [a, b, c, d, e] => pure (Cfg.mk a b c d e)
+      | _ => throw "cfg = [uniqueBackup, atomicRewrite, atomicCreate, keepForeign, resetAlways]"
     let runs ← jList jRun (← field j "runs")
     let evs0 := searchFiles cfg emptyDir runs
     let evs := match fieldD j "sys_cut" Json.null with
@@ -160,6 +161,7 @@ def handle (j : Json) : Except String Json := do
         | .ok js => Json.mkObj [("ok", true), ("jobs", ofJobs js)]
         | .error e => Json.mkObj [("ok", false), ("err", errStr e)]
     return Json.mkObj [("ok", true), ("visible", visibleOk res done dumped),
+      ("torn_last_only", match res with | none => false | some c => tornLastOnly c done dumped),
       ("wf", match res with | none => Json.null | some c => Json.bool (wellFormed c)),
       ("lines", match res with | none => Json.null | some c => ofContent c),
       ("reload", rl)]
